@@ -41,7 +41,7 @@ type HarnessSpec struct {
 	Name       string         `json:"name"`
 	Quick      map[string]int `json:"quick"`
 	Thorough   map[string]int `json:"thorough"`
-	Replay     string         `json:"replay"`   // "native" (default) | "engine"
+	Replay     string         `json:"replay"`   // "native" (default) | "engine" | "engine-on-hang"
 	Watchdog   string         `json:"watchdog"` // native replay watchdog
 	NoTermIs   string         `json:"budget_is"` // "violation": a budget-exhausted path is a non-termination suspect
 	DeadlockIs string         `json:"deadlock_is"`
@@ -756,6 +756,12 @@ func cmdCheck(args []string) int {
 					confirmed, how = true, "native assertion "+rr.Failed+" (the engine stopped at "+p.tape.Label+")"
 				case rr.Mismatch == "" && !rr.Assume && rr.Panic != "" && !strings.Contains(p.tape.Label, ".setup"):
 					confirmed, how = true, "native panic: "+rr.Panic+" (the engine stopped at "+p.tape.Label+")"
+				case p.h.Replay == "engine-on-hang" && rr.Failed == "" && rr.Panic == "" && rr.Mismatch == "" && !rr.Assume && !rr.Done:
+					// the counterexample's schedule parks one harness thread while another blocks on a
+					// synchronisation object inside the code under test (the native baton cannot hand
+					// over from a goroutine blocked in the runtime): the native run hangs at exactly that
+					// point instead of finishing cleanly; the engine's verdict stands (stated in the spec)
+					confirmed, how = true, "engine (the native replay blocks inside the code under test on this schedule)"
 				case strings.HasSuffix(p.tape.Label, "nothing_running") && rr.Leftover != "" && rr.Failed == "":
 					// inside a synctest bubble leftover goroutines show as the bubble's deadlock panic
 					confirmed, how = true, "native: "+rr.Leftover
